@@ -39,6 +39,52 @@ def find_exp_apps(terms):
     return list(apps.values())
 
 
+class EnvModel:
+    """model returned by the external solver: just a name -> value mapping."""
+
+    def __init__(self, env):
+        self.env = env
+
+    def decls(self):
+        return []
+
+    def __str__(self):
+        return str(self.env)
+
+
+def any_uf(terms):
+    seen = set()
+    stack = [t for t in terms if isz(t)]
+    while stack:
+        e = stack.pop()
+        i = e.get_id()
+        if i in seen:
+            continue
+        seen.add(i)
+        if e.decl().kind() == z3.Z3_OP_UNINTERPRETED and e.num_args() > 0:
+            return True
+        stack.extend(e.children())
+    return False
+
+
+def _model_eval(model, t):
+    """value of term t under a z3 model or an external EnvModel (with completion)."""
+    if isinstance(model, EnvModel):
+        return xf.eval_term(t, DefaultEnv(model.env))
+    v = model.eval(t, model_completion=True)
+    if z3.is_true(v):
+        return True
+    if z3.is_false(v):
+        return False
+    if z3.is_int_value(v):
+        return v.as_long()
+    return xf.eval_term(v, {})
+
+
+def R_(x):
+    return xf.R(x)
+
+
 class Verdict:
     __slots__ = ("status", "model", "seconds", "n_constraints")
 
@@ -52,12 +98,23 @@ class Verdict:
         return f"Verdict({self.status}, {self.seconds:.2f}s)"
 
 
+class _NoSolver:
+    """the explorer keeps no incremental solver: every question is a fresh solver over the cone of influence of the
+    terms asked about (an incremental solver re-solves unrelated nonlinear side constraints at every boolean decision)."""
+
+    def add(self, *a):
+        pass
+
+
 class Explorer:
     """Enumerates the feasible paths of ``fn`` (a closure that runs real code over symbolic values).
 
     Decisions: ("b", bool) for a single condition, ("p", excluded_patterns, chosen) for a mask."""
 
-    def __init__(self, base=(), timeout_ms=60000, max_paths=200000, exp_mode="uf"):
+    def __init__(self, base=(), timeout_ms=60000, max_paths=200000, exp_mode="uf", fork_specials=False):
+        self.fork_specials = fork_specials
+        self.portfolio = True
+        self.fast_ms = 3000
         self.base = [zb(c) for c in base if c is not True]
         self.timeout_ms = timeout_ms
         self.max_paths = max_paths
@@ -77,14 +134,13 @@ class Explorer:
         self.pos = 0
         self.pc = []
         self.side = []
-        self.solver = z3.Solver()
-        self.solver.set("timeout", self.timeout_ms)
-        if self.base:
-            self.solver.add(*self.base)
+        self.solver = _NoSolver()
         CTX.explorer = self
         CTX.exp_mode = self.exp_mode
+        CTX.fork_specials = self.fork_specials
         CTX.exp_apps = []
         CTX.fresh = 0
+        CTX.memo = {}
 
     def run(self, fn):
         """generator: yields fn()'s result once per feasible path."""
@@ -102,14 +158,15 @@ class Explorer:
             yield r
         CTX.explorer = None
 
-    def check(self, *assumptions):
-        return _timed_check(self.solver, *assumptions)
+    def _status(self, extra, seeds=()):
+        v = self.query(list(extra), exp_axioms="basic", seeds=seeds)
+        return v
 
     def feasible(self):
-        r = self.check()
-        if r == z3.unknown:
+        v = self.query([], sliced=False, exp_axioms="basic")
+        if v.status == "unknown":
             raise EngineGap("path feasibility unknown (solver timeout)")
-        return r == z3.sat
+        return v.status == "sat"
 
     # ------------------------------------------------------------------ constraints
     def add_side(self, c):
@@ -121,12 +178,11 @@ class Explorer:
         if c is True:
             return
         c = zb(c)
+        st = self._status([c]).status
         self.pc.append(c)
-        self.solver.add(c)
-        r = self.check()
-        if r == z3.unsat:
+        if st == "unsat":
             raise Infeasible()
-        if r == z3.unknown:
+        if st == "unknown":
             raise EngineGap("assume: unknown")
 
     # ------------------------------------------------------------------ decisions
@@ -143,28 +199,27 @@ class Explorer:
         if self.pos < len(self.prefix):
             d = self.prefix[self.pos]
             assert d[0] == "b", f"decision replay mismatch at {self.pos}: {d}"
-            b = d[1]
+            b, implied = d[1], d[2]
         else:
-            rT = self.check(c)
-            rF = self.check(z3.Not(c))
-            if rT == z3.unknown or rF == z3.unknown:
+            rT = self._status([c]).status
+            rF = self._status([z3.Not(c)]).status
+            if rT == "unknown" or rF == "unknown":
                 raise EngineGap("decide: solver returned unknown")
-            canT = rT == z3.sat
-            canF = rF == z3.sat
+            canT = rT == "sat"
+            canF = rF == "sat"
             if canT and canF:
-                self.todo.append(self.prefix[: self.pos] + [("b", False)])
-                b = True
-            elif canT:
-                b = True
-            elif canF:
-                b = False
+                self.todo.append(self.prefix[: self.pos] + [("b", False, False)])
+                b, implied = True, False
+            elif canT or canF:
+                b, implied = canT, True  # implied by the path so far: recorded for replay, adds no constraint
             else:
                 raise Infeasible()
-            self.prefix = self.prefix[: self.pos] + [("b", b)]
+            self.prefix = self.prefix[: self.pos] + [("b", b, implied)]
         self.pos += 1
-        lit = c if b else z3.Not(c)
-        self.solver.add(lit)
-        self.pc.append(lit)
+        if not implied:
+            lit = c if b else z3.Not(c)
+            self.solver.add(lit)
+            self.pc.append(lit)
         return b
 
     def decide_pattern(self, conds):
@@ -189,13 +244,12 @@ class Explorer:
             self.solver.add(f)
             self.pc.append(f)
         if chosen is None:
-            r = self.check()
-            if r == z3.unknown:
+            v = self._status([], seeds=sym)
+            if v.status == "unknown":
                 raise EngineGap("decide_pattern: unknown")
-            if r != z3.sat:
+            if v.status != "sat":
                 raise Infeasible()
-            m = self.solver.model()
-            chosen = [bool(z3.is_true(m.eval(c, model_completion=True))) for c in sym]
+            chosen = [bool(_model_eval(v.model, c)) for c in sym]
             self.todo.append(self.prefix[: self.pos] + [("p", excluded + [z3.Not(pat_formula(chosen))], None)])
             self.prefix = self.prefix[: self.pos] + [("p", excluded, chosen)]
         self.pos += 1
@@ -225,12 +279,12 @@ class Explorer:
             self.solver.add(f)
             self.pc.append(f)
         if chosen is None:
-            r = self.check()
-            if r == z3.unknown:
+            v = self._status([], seeds=[t])
+            if v.status == "unknown":
                 raise EngineGap("concretize_int: unknown")
-            if r != z3.sat:
+            if v.status != "sat":
                 raise Infeasible()
-            chosen = self.solver.model().eval(t, model_completion=True).as_long()
+            chosen = int(_model_eval(v.model, t))
             if len(excluded) > 64:
                 raise EngineGap("concretize_int: more than 64 values")
             self.todo.append(self.prefix[: self.pos] + [("i", excluded + [chosen], None)])
@@ -264,10 +318,10 @@ class Explorer:
         r = term_vars(t, self._vcache)
         return r
 
-    def query(self, extra, timeout_ms=None, exp_axioms=True, sliced=True):
+    def query(self, extra, timeout_ms=None, exp_axioms=True, sliced=True, fast_ms=None, seeds=()):
         """Is base+pc+side+extra satisfiable?  Returns Verdict; on sat the model covers the slice."""
         extra = [zb(e) for e in extra]
-        cons = self._slice(extra) if sliced else (self.base + self.pc + self.side)
+        cons = self._slice(extra + list(seeds)) if sliced else (self.base + self.pc + self.side)
         s = z3.Solver()
         s.set("timeout", timeout_ms or self.timeout_ms)
         s.add(*cons)
@@ -275,40 +329,103 @@ class Explorer:
         if exp_axioms and self.exp_mode == "uf" and CTX.exp_apps:
             apps = find_exp_apps(cons + extra)
             if apps:
-                s.add(*xf.exp_axioms(apps))
+                s.add(*xf.exp_axioms(apps, pairwise=exp_axioms != "basic"))
+        total_ms = timeout_ms or self.timeout_ms
+        fast_ms = min(total_ms, fast_ms or self.fast_ms) if self.portfolio else total_ms
+        s.set("timeout", fast_ms)
         t = time.time()
         r = _timed_check(s)
         dt = time.time() - t
+        if r == z3.unknown and self.portfolio and not any_uf(cons + extra):
+            # second opinion from the z3 4.8.12 binary on the same assertions (pure arithmetic only)
+            from . import extsolve
+            st, env, dt2 = extsolve.solve_smt2(s.sexpr(), timeout_s=max(1, (total_ms - fast_ms) // 1000), logic=None)
+            STATS["queries"] += 1
+            STATS["solver_s"] += dt2
+            STATS["external"] = STATS.get("external", 0) + 1
+            if st == "unsat":
+                return Verdict("unsat", None, dt + dt2, len(cons))
+            if st == "sat" and env is not None:
+                return Verdict("sat", EnvModel(env), dt + dt2, len(cons))
+            s.set("timeout", max(1000, total_ms - fast_ms))
+            t = time.time()
+            r = _timed_check(s)
+            dt += dt2 + time.time() - t
+        elif r == z3.unknown and self.portfolio:
+            s.set("timeout", max(1000, total_ms - fast_ms))
+            t = time.time()
+            r = _timed_check(s)
+            dt += time.time() - t
         if r == z3.sat:
             return Verdict("sat", s.model(), dt, len(cons))
         if r == z3.unsat:
             return Verdict("unsat", None, dt, len(cons))
         return Verdict("unknown", None, dt, len(cons))
 
-    def prove(self, goal, **kw):
-        """unsat = goal holds for every value on this path."""
+    def prove(self, goal, abstract=None, **kw):
+        """unsat = goal holds for every value on this path.
+
+        ``abstract``: list of (large) real terms replaced by fresh variables first (sound for validity: what holds
+        for an arbitrary value holds for the term); if the abstracted goal is not proved, the exact goal is tried."""
         if goal is True:
             return Verdict("unsat")
         if goal is False:
             return self.query([], **kw)
-        return self.query([z3.Not(zb(goal))], **kw)
+        g = zb(goal)
+        if abstract:
+            subs = []
+            for k, t in enumerate(abstract):
+                if isz(t) and not z3.is_const(t):
+                    subs.append((t, z3.Real(f"abs!{k}")))
+            if subs:
+                ga = z3.substitute(g, *subs)
+                v = self.query([z3.Not(ga)], **kw)
+                if v.status == "unsat":
+                    return v
+        return self.query([z3.Not(g)], **kw)
+
+    def lemma(self, goal, **kw):
+        """prove ``goal`` on this path and, only if proved, add it as a side fact for later queries."""
+        v = self.prove(goal, **kw)
+        if v.status == "unsat" and goal is not True:
+            self.add_side(zb(goal))
+        return v
+
+    def path_env(self, extra=()):
+        m = self.full_model(extra)
+        return None if m is None else DefaultEnv(model_env(m))
+
+    def match_equal(self, target, candidates, guard=True, timeout_ms=None, env=None):
+        """find a candidate term provably equal to ``target`` under this path (+guard).
+        Fingerprint by evaluation under a model of the path, then prove.  -> (candidate | None, Verdict)"""
+        from .xf import eval_term
+        if env is None:
+            env = self.path_env([guard] if guard is not True else [])
+        last = Verdict("unknown")
+        order = list(candidates)
+        if env is not None:
+            try:
+                tv = float(eval_term(target, env))
+                scored = []
+                for c in candidates:
+                    try:
+                        scored.append((abs(float(eval_term(c, env)) - tv), len(scored), c))
+                    except Exception:
+                        scored.append((1e30, len(scored), c))
+                scored.sort(key=lambda x: x[:2])
+                order = [c for d, _, c in scored if d < 1e-6 * max(1.0, abs(tv))]
+            except Exception:
+                pass
+        for c in order[:4]:
+            last = self.prove(z3.Implies(zb(guard), R_(target) == R_(c)), timeout_ms=timeout_ms)
+            if last.status == "unsat":
+                return c, last
+        return None, last
 
     def full_model(self, extra=()):
         """A model of *all* constraints of the path plus extra (for replay)."""
-        self.solver.push()
-        try:
-            for e in extra:
-                self.solver.add(zb(e))
-            if self.exp_mode == "uf":
-                apps = find_exp_apps(self.base + self.pc + self.side + [zb(e) for e in extra])
-                if apps:
-                    self.solver.add(*xf.exp_axioms(apps))
-            r = self.check()
-            if r != z3.sat:
-                return None
-            return self.solver.model()
-        finally:
-            self.solver.pop()
+        v = self.query(list(extra), sliced=False, exp_axioms=True)
+        return v.model if v.status == "sat" else None
 
     def path_summary(self, limit=6, width=90):
         return [c.sexpr()[:width].replace("\n", " ") for c in self.pc[:limit]]
@@ -319,6 +436,8 @@ def model_env(model):
     env = {}
     if model is None:
         return env
+    if isinstance(model, EnvModel):
+        return dict(model.env)
     for d in model.decls():
         if d.arity() != 0:
             continue
